@@ -48,13 +48,12 @@ var (
 )
 
 func GetCodecManager() *CodecManager {
-	if codecManager == nil {
-		onceCodecManager.Do(func() {
-			codecManager = &CodecManager{
-				codecMap: make(map[CodecType]map[message.MessageType]Codec, 0),
-			}
-		})
-	}
+	// (no unsynchronised nil check in front of the Once: that read races with the initialisation)
+	onceCodecManager.Do(func() {
+		codecManager = &CodecManager{
+			codecMap: make(map[CodecType]map[message.MessageType]Codec, 0),
+		}
+	})
 	return codecManager
 }
 
